@@ -561,7 +561,6 @@ func envStream(r *rng, thorough bool) {
 	}
 }
 
-
 type aliasCase struct {
 	name     string
 	old, new starlark.Value
@@ -604,7 +603,6 @@ func envAliasCases() []aliasCase {
 	add("float-change", env("constant values", starlark.Tuple{starlark.Float(1)}), env("constant values", starlark.Tuple{starlark.Float(2)}))
 	return out
 }
-
 
 // deepVal: a value nested n levels deep (kind 0: lists, 1: tuples, 2: lists, tuples and dicts in turn) around a leaf
 func deepVal(n, kind int, leaf string) starlark.Value {
